@@ -49,18 +49,33 @@ def op_list(lines, tracks):
     for k in sorted({0, len(cells) // 2, len(cells) - 1}):
         for exc in ("StopIteration", "IndexError", "KeyError", "GeneratorExit"):
             ops.append({"op": "fn", "tag": "B", "fail": k, "exc": exc})
+    # the callable may hand back the pattern's OWN note objects at OTHER cells (rotate the lines), or one note object the
+    # caller keeps across edits, placed at a different cell each time
+    ops.append({"op": "fn", "tag": "A", "fail": None, "keep": "rotate"})
+    for k in sorted({0, len(cells) - 1}):
+        ops.append({"op": "fn", "tag": "A", "fail": None, "keep": "all", "own": k})
+    # the callable may not raise at all but hand back something that is not a Note: if the library refuses the edit
+    # (any exception), the refusal is a failed edit like any other
+    for k in sorted({0, len(cells) // 2, len(cells) - 1}):
+        ops.append({"op": "fn", "tag": "B", "fail": k, "junk": True})
     subsets = [("none", [])] + [(f"cell{k}", [cells[k]]) for k in range(len(cells))]
     subsets.append(("row0", [c for c in cells if c[0] == 0]))
     subsets.append(("all", cells))
     # the generator may also write a new note DIRECTLY into the working array it is handed ("possible but discouraged")
     ops.append({"op": "gen", "tag": "B", "subset": "direct", "cells": [list(cells[-1])], "fail": None, "direct": [list(cells[0])]})
+    # ... or change the notes of the working array IN PLACE (they are copies: nothing reaches the pattern unless the edit
+    # completes), then complete or fail; or yield something that is not a Note
+    for j in (None, 0, 1):
+        ops.append({"op": "gen", "tag": "B", "subset": "inplace", "cells": [list(cells[-1])], "fail": j, "inplace": [list(cells[0]), list(cells[-1])]})
+    for j in sorted({0, len(cells) - 1}):
+        ops.append({"op": "gen", "tag": "B", "subset": "all", "cells": [list(c) for c in cells], "fail": j, "junk": True})
     for name, S in subsets:
         for j in [None] + list(range(len(S) + 1)):
             ops.append({"op": "gen", "tag": "A" if name != "all" else "B", "subset": name, "cells": [list(c) for c in S], "fail": j})
     return ops
 
 
-def apply_op(pat, grid, op, lines, tracks):
+def apply_op(pat, grid, op, lines, tracks, state=None):
     """Applies op to the real pattern and the reference grid; returns (raised, expected_raise)."""
     from rv.note import NOTECMD, Note
 
@@ -73,11 +88,22 @@ def apply_op(pat, grid, op, lines, tracks):
         count = [0]
         shared_note = mk(op["tag"], 0, 0) if op.get("shared") else None
 
+        state = state if state is not None else {}
+        if "own" in op and "own" not in state:
+            state["own"] = Note(note=NOTECMD(77), vel=77, module=0, ctl=0x0707, val=0x7777)
+        own_cell = (77, 77, 0, 0x0707, 0x7777)
+
         def fn(p, line, track):
             k = count[0]
             count[0] += 1
             if op["fail"] is not None and k == op["fail"]:
+                if op.get("junk"):
+                    return None
                 raise _exc(op)
+            if "own" in op and k == op["own"]:
+                return state["own"]
+            if op.get("keep") == "rotate":
+                return p.data[(line + 1) % lines][track]
             if op.get("keep") == "all" or (op.get("keep") == "even" and k % 2 == 0):
                 return p.data[line][track]
             if shared_note is not None:
@@ -89,7 +115,11 @@ def apply_op(pat, grid, op, lines, tracks):
             k2 = 0
             for l in range(lines):
                 for t in range(tracks):
-                    if not (op.get("keep") == "all" or (op.get("keep") == "even" and k2 % 2 == 0)):
+                    if "own" in op and k2 == op["own"]:
+                        new[l][t] = own_cell
+                    elif op.get("keep") == "rotate":
+                        new[l][t] = grid[(l + 1) % lines][t]
+                    elif not (op.get("keep") == "all" or (op.get("keep") == "even" and k2 % 2 == 0)):
                         new[l][t] = cell_value(op["tag"], 0, 0) if op.get("shared") else cell_value(op["tag"], l, t)
                     k2 += 1
         try:
@@ -102,6 +132,8 @@ def apply_op(pat, grid, op, lines, tracks):
             # failed"; any other error is NOT the callable's: the edit itself broke
             if op.get("exc") and type(e).__name__ in (op["exc"], "RuntimeError"):
                 raised = True
+            elif op.get("junk") and isinstance(e, Exception):
+                raised = True  # the library refused what the callable handed back
             elif isinstance(e, Exception):
                 raised = "other:" + type(e).__name__
             else:
@@ -112,8 +144,14 @@ def apply_op(pat, grid, op, lines, tracks):
         def gen(p, data):
             for (dl, dt) in [tuple(c) for c in op.get("direct", [])]:
                 data[dl][dt] = mk("A", dl, dt)
+            for (dl, dt) in [tuple(c) for c in op.get("inplace", [])]:
+                data[dl][dt].vel = 99
+                data[dl][dt].val = 0x6363
             for i, (l, t) in enumerate(S):
                 if op["fail"] is not None and i == op["fail"]:
+                    if op.get("junk"):
+                        yield l, t, "C4"
+                        continue
                     raise Boom()
                 yield l, t, mk(op["tag"], l, t)
             if op["fail"] is not None and op["fail"] == len(S):
@@ -123,6 +161,9 @@ def apply_op(pat, grid, op, lines, tracks):
         if not expect_fail:
             for (dl, dt) in [tuple(c) for c in op.get("direct", [])]:
                 new[dl][dt] = cell_value("A", dl, dt)
+            for (dl, dt) in [tuple(c) for c in op.get("inplace", [])]:
+                c = new[dl][dt]
+                new[dl][dt] = (c[0], 99, c[2], c[3], 0x6363)
             for (l, t) in S:
                 new[l][t] = cell_value(op["tag"], l, t)
         try:
@@ -131,7 +172,7 @@ def apply_op(pat, grid, op, lines, tracks):
         except Boom:
             raised = True
         except Exception as e:
-            raised = "other:" + type(e).__name__
+            raised = True if op.get("junk") else "other:" + type(e).__name__
     return raised, expect_fail, (grid if expect_fail else new)
 
 
@@ -219,15 +260,25 @@ def run_history(lines, tracks, attached, hist, initial="dense"):
                     c = SPARSE[(l * tracks + t + off) % len(SPARSE)]
                     n.note, n.vel, n.module, n.ctl, n.val = rv.NOTECMD(c[0]), c[1], c[2], c[3], c[4]
         grid = grid_of(pat)
+    hstate = {}
     for i, op in enumerate(hist):
         kind = op["op"] + ("-fail" if op["fail"] is not None else "-ok")
         key = {"op": kind, "attached": attached, "initial": initial.rstrip("03+-")}
         if op.get("exc"):
             key["exc"] = op["exc"]
+        for extra in ("junk", "own", "inplace"):
+            if extra in op:
+                key[extra] = True
+        if op.get("keep") == "rotate":
+            key["rotate"] = True
         if initial == "untouched" and i > 0:
             key["initial"] = "untouched-then-edited"
         raw_before = pat.raw_data if not (initial == "untouched" and i == 0) else bytes(8 * lines * tracks)
-        raised, expect_fail, expected = apply_op(pat, grid, op, lines, tracks)
+        if "inplace" in op and not (initial == "untouched" and i == 0) and len({id(n) for row in pat.data for n in row}) != lines * tracks:
+            break  # an earlier op put ONE note object into several cells: what an in-place change of it means is not stated
+        raised, expect_fail, expected = apply_op(pat, grid, op, lines, tracks, hstate)
+        if op.get("junk") and raised is False:
+            break  # the tree accepts the value: nothing is stated about what the pattern then holds
         got = grid_of(pat)
         if raised != expect_fail:
             vs.append(C.viol("unexpected-outcome", key, {"raised": raised}, case))
@@ -294,6 +345,45 @@ def _task(t):
     return r
 
 
+def core_ops(lines, tracks):
+    """A small sub-alphabet for depth-3 histories: edits that MOVE note objects the pattern or the caller already holds,
+    next to a plain, a failing and an empty edit."""
+    out = []
+    for op in op_list(lines, tracks):
+        if op["op"] == "fn" and (op.get("keep") == "rotate" or "own" in op or (op.get("keep") == "all" and "own" not in op)):
+            out.append(op)
+        elif op["op"] == "fn" and op["fail"] == 0 and not op.get("exc") and not op.get("junk"):
+            out.append(op)
+        elif op["op"] == "fn" and op["fail"] is None and op["tag"] == "B" and not op.get("keep"):
+            out.append(op)
+        elif op["op"] == "gen" and op.get("subset") == "none" and op["fail"] is None:
+            out.append(op)
+        elif op["op"] == "gen" and op.get("subset") == "inplace" and op["fail"] in (None, 1):
+            out.append(op)
+    return out
+
+
+def _task3(t):
+    lines, tracks, attached = t
+    r = C.new_result()
+    ops = core_ops(lines, tracks)
+    outcomes = set()
+    for hist in itertools.product(ops, repeat=3):
+        for initial in ("dense", "untouched"):
+            vs = run_history(lines, tracks, attached, list(hist), initial)
+            r["evals"] += 1
+            C.count(r, "histories_depth3_core")
+            outcomes.add((initial,) + tuple((o["op"], o["fail"] is not None, o.get("keep"), o.get("own")) for o in hist))
+            if len(r["violations"]) < 30:
+                r["violations"] += vs
+    r["digests"] = {repr(o).encode() for o in outcomes}
+    return r
+
+
+def _dispatch(t):
+    return _task3(t[1:]) if t[0] == "deep3" else _task(t)
+
+
 def run(ctx):
     treeenv.setup()
     rng = (1, 2, 3, 4) if ctx.thorough else (1, 2, 3)
@@ -310,10 +400,14 @@ def run(ctx):
                 step = 4 if d == 3 else 16
                 for lo in range(0, n, step):
                     tasks.append((lines, tracks, attached, 1 if attached in ("rich", "rich-saved") else d, lo, min(n, lo + step)))
+    for lines in (1, 2, 3):
+        for tracks in (1, 2, 3):
+            for attached in (False, True):
+                tasks.append(("deep3", lines, tracks, attached))
     from rvmc.runner import rotate
 
     agg = C.Agg()
-    for r in ctx.pmap(_task, rotate(tasks, ctx.seed)):
+    for r in ctx.pmap(_dispatch, rotate(tasks, ctx.seed)):
         agg.merge(r)
     ctx.add(agg.violations)
     return {
